@@ -19,7 +19,7 @@ Local Open Scope Z_scope.
 Inductive tfree (T : Z) {R} : prog R -> Prop :=
 | tf_ret r : tfree T (Ret r)
 | tf_keys ks k : (forall f, tfree T (k f)) -> tfree T (KeysExist ks k)
-| tf_getexp key k : (forall o, tfree T (k o)) -> tfree T (GetExpiry key k)
+| tf_getexp key k : (forall o, dl_ok T o -> tfree T (k o)) -> tfree T (GetExpiry key k)
 | tf_getv ks k : (forall f, tfree T (k f)) -> tfree T (GetValues ks k)
 | tf_setv kvs k : (forall b, tfree T (k b)) -> tfree T (SetValues kvs k)
 | tf_setexp key t touch k : dl_ok T t -> tfree T k -> tfree T (SetExpiry key t touch k)
@@ -41,7 +41,7 @@ Proof.
                  |k Heq _ IH|k _ IH|k _ IH|k _ IH]; intros d s n H Hs Hn; cbn [run_cl].
   - done.
   - rewrite (keys_exist_at T) by done. by apply IH.
-  - rewrite (get_expiry_at T) by done. by apply IH.
+  - rewrite (get_expiry_at T) by done. apply IH; [by apply get_expiry_dl_ok|done..].
   - rewrite (get_values_at T) by done. by apply IH.
   - destruct (set_values_at T s n d kvs H Hs Hn) as (E & D & N). rewrite E.
     destruct (set_values s d kvs) as [s' ok]. simpl in *.
